@@ -57,6 +57,10 @@ def cases(tier, seed):
                         firsts = [None] if k <= 1 else list(range(n_alpha))
                         for first in firsts:
                             out.append(dict(grid=grid, ax=ax, tmpl=ti, k=k, first=first, with_c=with_c, seed=seed, conf=(k <= 1 and not with_c and ti in CONF_TEMPLATES)))
+    # dependency chains v <- a <- b <- c (3-4 constraints, objects a,b,c): every axis and grid
+    for grid in _grids(tier):
+        for ax in range(3):
+            out.append(dict(grid=grid, ax=ax, tmpl=7, k=3, first=None, with_c=True, chain=True, seed=seed, conf=False))
     return out
 
 
@@ -70,6 +74,7 @@ def bounds(tier, seed):
         "multiset_size": "<=2" if tier == "quick" else "<=3 (objects a,b); <=2 with a third object c",
         "object_templates": "a in {no size, grid 2, real 2.5 cells} x b in {no size, grid 3} (x c in {no size, grid 1})",
         "place_objects_conformance": "all systems with <=1 entry on templates 0 and 3",
+        "chains": "4 dependency chains over three objects (v <- a <- b <- c, 3-4 constraints) per axis and grid",
         "seed": seed,
     }
 
@@ -79,6 +84,10 @@ def systems_of(case):
     from mc.oracles import placement as P
 
     ax = case["ax"]
+    if case.get("chain"):
+        for i, s in enumerate(P.chain_systems(ax, VOL, case["grid"], SP, case["seed"])):
+            yield ("chain", i), s
+        return
     A = P.alphabet(ax, VOL[ax], SP, case["seed"], with_c=case["with_c"])
     tmpl = P.templates(ax, SP, with_c=case["with_c"])[case["tmpl"]]
     k = case["k"]
